@@ -205,7 +205,7 @@ func cmdCheck(args []string) int {
 			v0 := g[0]
 			fmt.Printf("  counterexample class (%d models): kind=%s known=%q msg=%q\n", len(g), v0.Kind, v0.Known, v0.Msg)
 			if *verbose {
-				fmt.Printf("    values=%v gates=%v sched=%v\n", v0.Values, v0.Gates, v0.Sched)
+				fmt.Printf("    values=%v gates=%v sched=%v trace=%v\n", v0.Values, v0.Gates, v0.Sched, v0.Trace)
 			}
 			if *noNative || u.NoReplay {
 				inconclusive = append(inconclusive, u.Name+": counterexample not replayed: "+v0.Msg)
